@@ -14,7 +14,7 @@
    Source transcoding: CORRESPONDED ONLY (Expat's work). *)
 From Coq Require Import List NArith.
 From Wbxml Require Import Model.Codec Model.TablesDefs Model.EncWbxml Proofs.EncWbxmlProofs Proofs.EncWbxmlC07 Proofs.EncWbxmlAbs Proofs.EncWbxmlDenote2
-     Model.EncWbxmlEvents Proofs.EncWbxmlTblOk Proofs.EncWbxmlDenote3.
+     Model.EncWbxmlEvents Proofs.EncWbxmlTblOk Proofs.EncWbxmlDenote3 Proofs.EncWbxmlAbs4 Proofs.EncWbxmlDenote4 Proofs.EncWbxmlAbs5 Proofs.EncWbxmlDenote5 Proofs.EncWbxmlDenoteWv.
 From Wbxml Require Model.Parser Model.Spec.
 From Wbxml Require Model.EncXml Model.XmlRead Proofs.EncXmlProofs Proofs.EncXmlIndent Proofs.EncXmlC07.
 Import ListNotations.
@@ -120,6 +120,55 @@ Theorem C07_wbxml_options_decode_equal_strtbl_partial : forall tblb TBL L v1 v2 
                   merge_chars ev1 = merge_chars ev2.
 Proof. exact options_decode_equal3. Qed.
 Print Assumptions C07_wbxml_options_decode_equal_strtbl_partial.
+
+(* the same for trees WITH BINARY-FLAGGED elements (byte arrays written as OPAQUE, never trimmed / dropped / cut): all 16
+   tuples decode to merge_chars-equal event lists (fragment of C06_strict_decoding_yields_normalised_source_binary_partial) *)
+Theorem C07_wbxml_options_decode_equal_binary_partial : forall tblb TBL L v1 v2 s1 s2 a1 a2 k tag attrs ch bs1 bs2,
+  let o1 := mk_opts v1 s1 k a1 in let o2 := mk_opts v2 s2 k a2 in
+  plain_env (enc_env (to_blang L) o1) = true -> vals_ok L = true -> l_exts L = None ->
+  tree_ok4 L false 0 (NElt tag attrs ch) = true ->
+  find (fun x => l_id x =? l_id L) TBL = Some L ->
+  v1 < 4 -> v2 < 4 -> l_pub_num L < 4294967296 -> l_pub_num L <> 0 ->
+  (match l_pub_text L with Some p => okb (Parser.B p) = true | None => True end) ->
+  len bs1 < 4294967296 -> len bs2 < 4294967296 ->
+  enc_wbxml tblb (to_blang L) o1 [NElt tag attrs ch] = EOk bs1 ->
+  enc_wbxml tblb (to_blang L) o2 [NElt tag attrs ch] = EOk bs2 ->
+  exists ev1 ev2, Spec.decode_lang TBL (l_id L) bs1 = Some ev1 /\ Spec.decode_lang TBL (l_id L) bs2 = Some ev2 /\
+                  merge_chars ev1 = merge_chars ev2.
+Proof. exact options_decode_equal4. Qed.
+Print Assumptions C07_wbxml_options_decode_equal_binary_partial.
+
+(* the same for the TYPED classes: plain + SI 1.0 + EMN 1.0 (%Datetime attributes decoded as canon_dt value) ... *)
+Theorem C07_wbxml_options_decode_equal_typed_datetime_partial : forall tblb TBL L v1 v2 s1 s2 a1 a2 k tag attrs ch bs1 bs2,
+  let o1 := mk_opts v1 s1 k a1 in let o2 := mk_opts v2 s2 k a2 in
+  class5 (enc_env (to_blang L) o1) = true -> vals_ok L = true -> l_exts L = None -> tag_tbl_ok (enc_env (to_blang L) o1) = true ->
+  tree_ok5 L (aok_dt L) tok_plain 0 true None (NElt tag attrs ch) = true ->
+  find (fun x => l_id x =? l_id L) TBL = Some L ->
+  v1 < 4 -> v2 < 4 -> l_pub_num L < 4294967296 -> l_pub_num L <> 0 ->
+  (match l_pub_text L with Some p => okb (Parser.B p) = true | None => True end) ->
+  len bs1 < 4294967296 -> len bs2 < 4294967296 ->
+  enc_wbxml tblb (to_blang L) o1 [NElt tag attrs ch] = EOk bs1 ->
+  enc_wbxml tblb (to_blang L) o2 [NElt tag attrs ch] = EOk bs2 ->
+  exists ev1 ev2, Spec.decode_lang TBL (l_id L) bs1 = Some ev1 /\ Spec.decode_lang TBL (l_id L) bs2 = Some ev2 /\
+                  merge_chars ev1 = merge_chars ev2.
+Proof. exact options_decode_equal5. Qed.
+Print Assumptions C07_wbxml_options_decode_equal_typed_datetime_partial.
+
+(* ... and Wireless Village (typed integers / dates / extension tokens in content; elements without attributes) *)
+Theorem C07_wbxml_options_decode_equal_typed_wv_partial : forall tblb TBL L v1 v2 s1 s2 a1 a2 k tag attrs ch bs1 bs2,
+  let o1 := mk_opts v1 s1 k a1 in let o2 := mk_opts v2 s2 k a2 in
+  is_wv (to_blang L) = true -> exts_ok L = true -> tag_tbl_ok (enc_env (to_blang L) o1) = true ->
+  tree_ok5 L aok_none (tok_wv k) 0 true None (NElt tag attrs ch) = true ->
+  find (fun x => l_id x =? l_id L) TBL = Some L ->
+  v1 < 4 -> v2 < 4 -> l_pub_num L < 4294967296 -> l_pub_num L <> 0 ->
+  (match l_pub_text L with Some p => okb (Parser.B p) = true | None => True end) ->
+  len bs1 < 4294967296 -> len bs2 < 4294967296 ->
+  enc_wbxml tblb (to_blang L) o1 [NElt tag attrs ch] = EOk bs1 ->
+  enc_wbxml tblb (to_blang L) o2 [NElt tag attrs ch] = EOk bs2 ->
+  exists ev1 ev2, Spec.decode_lang TBL (l_id L) bs1 = Some ev1 /\ Spec.decode_lang TBL (l_id L) bs2 = Some ev2 /\
+                  merge_chars ev1 = merge_chars ev2.
+Proof. exact options_decode_equal_wv. Qed.
+Print Assumptions C07_wbxml_options_decode_equal_typed_wv_partial.
 
 (* ---- XML half (statements over the XML generator model; qualified names: its tree type is its own) -------------- *)
 Module XmlHalf.
